@@ -7,7 +7,7 @@ Property theorems about `XlModel.FormulaRef` (transcription of adjust.go's
 references (all 16384 columns, all rows, every `$` combination), all edits and
 all token lists.
 -/
-import XlModel.Lemmas.FormulaRef5
+import XlModel.Lemmas.FormulaRef7
 
 namespace XlModel.Props.C07
 open XlModel XlModel.Ref XlModel.FormulaRef
@@ -561,50 +561,12 @@ theorem formula_rewrite_correct (sheet : Str) (e : Edit) (formula : Str)
 
 /-! ## `render` is faithful: the reference grammar parser inverts it -/
 
-/-- every endpoint index is at least 1 (weaker than `inGrid`: no upper bound needed) -/
-def Spec.Ref.pos : Spec.Ref → Prop
-  | .cell c r => 1 ≤ c.n ∧ 1 ≤ r.n
-  | .range c1 r1 c2 r2 => 1 ≤ c1.n ∧ 1 ≤ r1.n ∧ 1 ≤ c2.n ∧ 1 ≤ r2.n
-  | .cols c1 c2 => 1 ≤ c1.n ∧ 1 ≤ c2.n
-  | .rows r1 r2 => 1 ≤ r1.n ∧ 1 ≤ r2.n
-
 /-- **parse_render** — `Spec.render` loses nothing: for EVERY reference (all shapes, all columns and
 rows ≥ 1, every `$` combination) the grammar parser reads the rendered text back as exactly that
 reference. Together with `operand_rewrite_correct`:
 `parseRef (adjustOperand (render r)) = some (shiftRef r)` (`operand_rewrite_parse`). -/
-theorem parse_render (r : Spec.Ref) (h : Spec.Ref.pos r) : Spec.parseRef (Spec.render r) = some r := by
-  cases r with
-  | cell c ro =>
-    obtain ⟨h1, h2⟩ := h
-    unfold Spec.parseRef
-    simp only [Spec.render]
-    rw [splitColon_none _ (cellText_noColon c ro)]
-    simp [parseEnd_cell c ro h1 h2]
-  | range c1 r1 c2 r2 =>
-    obtain ⟨h1, h2, h3, h4⟩ := h
-    unfold Spec.parseRef
-    simp only [Spec.render]
-    have : Spec.renderCol c1 ++ Spec.renderRow r1 ++ [':'] ++ (Spec.renderCol c2 ++ Spec.renderRow r2)
-        = (Spec.renderCol c1 ++ Spec.renderRow r1) ++ ':' :: (Spec.renderCol c2 ++ Spec.renderRow r2) := by simp
-    rw [this, splitColon_one _ _ (cellText_noColon c1 r1) (cellText_noColon c2 r2)]
-    simp [parseEnd_cell c1 r1 h1 h2, parseEnd_cell c2 r2 h3 h4]
-  | cols c1 c2 =>
-    obtain ⟨h1, h3⟩ := h
-    unfold Spec.parseRef
-    simp only [Spec.render]
-    have : Spec.renderCol c1 ++ [':'] ++ Spec.renderCol c2 = Spec.renderCol c1 ++ ':' :: Spec.renderCol c2 := by simp
-    rw [this, splitColon_one _ _ (renderCol_noColon c1) (renderCol_noColon c2)]
-    simp [parseEnd_col c1 h1, parseEnd_col c2 h3]
-  | rows r1 r2 =>
-    obtain ⟨h2, h4⟩ := h
-    unfold Spec.parseRef
-    simp only [Spec.render]
-    have : Spec.renderRow r1 ++ [':'] ++ Spec.renderRow r2 = Spec.renderRow r1 ++ ':' :: Spec.renderRow r2 := by simp
-    rw [this, splitColon_one _ _ (renderRow_noColon r1) (renderRow_noColon r2)]
-    simp [parseEnd_row r1 h2, parseEnd_row r2 h4]
-
-theorem inGrid_pos {r : Spec.Ref} (h : Spec.inGrid r) : Spec.Ref.pos r := by
-  cases r <;> simp only [Spec.inGrid, Spec.colOk, Spec.rowOk, Spec.Ref.pos] at * <;> omega
+theorem parse_render (r : Spec.Ref) (h : Spec.Ref.pos r) : Spec.parseRef (Spec.render r) = some r :=
+  parseRef_render r h
 
 /-- `render` is injective on references with positive indices -/
 theorem render_injective (r s : Spec.Ref) (hr : Spec.Ref.pos r) (hs : Spec.Ref.pos s)
@@ -778,6 +740,103 @@ theorem deleted_range_start_denotes_extra (c : Spec.ColEnd) (a b : Nat) (ha : 2 
   · have : ((a - 1 : Nat) : Int) < (a : Int) := by omega
     simp [Spec.shiftPos, shiftIdx_lt this]
   · simp [Spec.denote]; omega
+
+/-! ## Defined names (`keepRelative = true`) -/
+
+/-- every endpoint carries `$` on every coordinate / on no coordinate -/
+def allAbs : Spec.Ref → Prop
+  | .cell c r => c.abs = true ∧ r.abs = true
+  | .range c1 r1 c2 r2 => c1.abs = true ∧ r1.abs = true ∧ c2.abs = true ∧ r2.abs = true
+  | .cols c1 c2 => c1.abs = true ∧ c2.abs = true
+  | .rows r1 r2 => r1.abs = true ∧ r2.abs = true
+
+def noAbs : Spec.Ref → Prop
+  | .cell c r => c.abs = false ∧ r.abs = false
+  | .range c1 r1 c2 r2 => c1.abs = false ∧ r1.abs = false ∧ c2.abs = false ∧ r2.abs = false
+  | .cols c1 c2 => c1.abs = false ∧ c2.abs = false
+  | .rows r1 r2 => r1.abs = false ∧ r2.abs = false
+
+/-- a fully absolute reference in a defined name is relocated exactly like a cell formula's -/
+theorem keepRelative_abs_eq (e : Edit) (r : Spec.Ref) (h : allAbs r) :
+    Spec.shiftRef true e r = Spec.shiftRef false e r := by
+  cases r <;> simp only [allAbs] at h <;>
+    simp [Spec.shiftRef, Spec.shiftCol, Spec.shiftRow, Spec.moves, h]
+
+/-- **denote_shift_defined_name** — `denote_shift` for `keepRelative = true`: a defined name whose
+reference is fully absolute (what Excel writes for names) still denotes the same cells. -/
+theorem denote_shift_defined_name (e : Edit) (hn : 0 ≤ e.num) (r r' : Spec.Ref) (p p' : Nat × Nat)
+    (ha : allAbs r) (hs : Spec.shiftRef true e r = some r') (hp : Spec.shiftPos e p = some p')
+    (hok : posOk p) (hok' : posOk p') : Spec.denote r' p' ↔ Spec.denote r p := by
+  rw [keepRelative_abs_eq e r ha] at hs
+  exact denote_shift e hn r r' p p' hs hp hok hok'
+
+/-- **keepRelative_relative_untouched** — the other half of `keepRelative`: a reference without any
+`$` in a defined name is left exactly as it is (it is relative to the cell that uses the name, so it
+denotes the same *positions*, deliberately not the same cells), whatever the edit — also when the
+position lies in a deleted row/column. Mixed references move coordinate by coordinate
+(`Spec.shiftCol`/`shiftRow`); no denotation statement is made for them. -/
+theorem keepRelative_relative_untouched (e : Edit) (r : Spec.Ref) (h : noAbs r) :
+    Spec.shiftRef true e r = some r ∧ Spec.slideRef true e r = r := by
+  cases r <;> simp only [noAbs] at h <;>
+    simp [Spec.shiftRef, Spec.shiftCol, Spec.shiftRow, Spec.slideRef, Spec.slideCol, Spec.slideRow, Spec.moves, h]
+
+/-! ## "Evaluates to the same result": the rewrite joined with C08's evaluator -/
+
+/-- **eval_invariant_under_shift** (DESIGN §4/C07) — for C08's reference evaluator `Calc.Spec.eval`
+(imported from `XlModel.Calc`, any numeric carrier): take an expression tree whose reference leaves are
+in-grid cell references none of which is deleted by the edit; evaluate it over a grid `g`. After the
+edit the grid is `g'`, where every surviving cell kept its value at its new position (`hg`). Then
+the tree with every reference relocated (`shiftKey`: parse, `shiftRef`, render — what
+`operand_rewrite_correct` shows the code produces) evaluates over `g'` to the same value. Uses
+`parse_render` (keys are rendered text) and the cell case of `denote_shift` (`shiftRef_cell_pos`). -/
+theorem eval_invariant_under_shift {N : Type} [Calc.NumOps N] (e : Edit)
+    (g g' : Nat × Nat → Calc.Spec.Val N)
+    (hg : ∀ p p', posOk p → posOk p' → Spec.shiftPos e p = some p' → g' p' = g p)
+    (t : Calc.Expr) (ht : refsAll (goodKey e) t) :
+    Calc.Spec.eval (envOf g') (mapRef (shiftKey e) t) = Calc.Spec.eval (envOf g) t :=
+  specEval_mapRef (envOf g) (envOf g') (shiftKey e) t
+    (refsAll_mono (fun k hk => envOf_shiftKey e g g' hg k hk) t ht)
+
+/-- the same for the transcription of calc.go's own operand semantics (`Calc.Impl.evalTree`), which
+C08's `shunting_yard_correct` relates to the token machine -/
+theorem eval_invariant_under_shift_impl {N : Type} [Calc.NumOps N] (e : Edit)
+    (g g' : Nat × Nat → Calc.Impl.CellArg N)
+    (hg : ∀ p p', posOk p → posOk p' → Spec.shiftPos e p = some p' → g' p' = g p)
+    (t : Calc.Expr) (ht : refsAll (goodKey e) t) :
+    Calc.Impl.evalTree (envOf g') (mapRef (shiftKey e) t) = Calc.Impl.evalTree (envOf g) t :=
+  implEval_mapRef (envOf g) (envOf g') (shiftKey e) t
+    (refsAll_mono (fun k hk => envOf_shiftKey e g g' hg k hk) t ht)
+
+/-- **denoted_content_shift** — the range/aggregate counterpart, over an abstract cell content type:
+if surviving cells keep their content and every cell without a pre-image (an inserted row/column) is
+blank, then the NON-BLANK cells a relocated reference denotes are exactly the images of the non-blank
+cells the original denoted, with the same contents. Any evaluator that looks at a reference only
+through the contents of its non-blank cells (SUM, COUNT, MAX, MIN, AVERAGE … over `denote`) therefore
+sees the same multiset of values; `ROWS`/`COUNTBLANK`-like functions do not, by design. -/
+theorem denoted_content_shift {V : Type} (blank : V) (e : Edit) (hn : 0 ≤ e.num) (r r' : Spec.Ref)
+    (hs : Spec.shiftRef false e r = some r') (g g' : Nat × Nat → V)
+    (hg : ∀ p p', posOk p → posOk p' → Spec.shiftPos e p = some p' → g' p' = g p)
+    (hb : ∀ p', posOk p' → (¬ ∃ p, posOk p ∧ Spec.shiftPos e p = some p') → g' p' = blank)
+    (p' : Nat × Nat) (hok' : posOk p') :
+    (Spec.denote r' p' ∧ g' p' ≠ blank) ↔
+      ∃ p, posOk p ∧ Spec.shiftPos e p = some p' ∧ Spec.denote r p ∧ g p ≠ blank ∧ g' p' = g p := by
+  constructor
+  · intro ⟨hd, hne⟩
+    have hex : ∃ p, posOk p ∧ Spec.shiftPos e p = some p' := by
+      apply Classical.byContradiction
+      intro hno
+      exact hne (hb p' hok' hno)
+    obtain ⟨p, hok, hp⟩ := hex
+    have hv := hg p p' hok hok' hp
+    exact ⟨p, hok, hp, (denote_shift e hn r r' p p' hs hp hok hok').mp hd, by rw [← hv]; exact hne, hv⟩
+  · intro ⟨p, hok, hp, hd, hne, hv⟩
+    exact ⟨(denote_shift e hn r r' p p' hs hp hok hok').mpr hd, by rw [hv]; exact hne⟩
+
+/-- non-vacuity of `eval_invariant_under_shift`: `$B$3 + C4` under "insert 2 rows at row 4" -/
+example : refsAll (goodKey ⟨.rows, 4, 2⟩)
+    (.bin .add (.ref (keyOf (.cell ⟨true, 2⟩ ⟨true, 3⟩))) (.ref (keyOf (.cell ⟨false, 3⟩ ⟨false, 4⟩)))) := by
+  refine ⟨⟨⟨true, 2⟩, ⟨true, 3⟩, ⟨true, 2⟩, ⟨true, 3⟩, rfl, by decide, by decide +kernel, by decide⟩,
+    ⟨⟨false, 3⟩, ⟨false, 4⟩, ⟨false, 3⟩, ⟨false, 6⟩, rfl, by decide, by decide +kernel, by decide⟩⟩
 
 /-! ## Where the current code does not satisfy the full statement -/
 
